@@ -84,6 +84,20 @@ def _exec_small(args):
             if r == 'setitem-slice' and c in ('nested-list', 'nested-tuple', 'ndarray-2d'):
                 continue
             out.append(x_store.observe(fx, np, fmt, modes, bv, c, r, props, True))
+    # 3b. complex inputs: each component quantized on its own (boundary values; real part ascending, imaginary descending)
+    if pid == 'C01' and (rot % 2 == 0 or tier == 'thorough'):
+        for j, r_ in enumerate(['ctor', 'call', 'set_val', 'setitem'] if tier == 'thorough' else [['ctor', 'call', 'set_val', 'setitem'][rot % 4]]):
+            out += x_store.observe_complex(fx, np, fmt, modes, bvals, bvals[::-1], r_, props, scalar=True)
+        out += x_store.observe_complex(fx, np, fmt, modes, bvals, bvals[::-1], ['ctor', 'call', 'set_val'][rot % 3], props, scalar=False)
+    # 3c. C03 register clause: same-format wrap-mode + - * behaves like arithmetic modulo 2^n_word
+    if pid == 'C03' and row['o'] == 'wrap' and 0 <= row['f'] <= row['w'] and row['w'] <= (4 if tier == 'thorough' else 3):
+        from .. import x_arith
+        lo_, hi_ = row['lo'], row['hi']
+        cx = [a for a in range(lo_, hi_ + 1) for b in range(lo_, hi_ + 1)]
+        cy = [b for a in range(lo_, hi_ + 1) for b in range(lo_, hi_ + 1)]
+        for op in ('add', 'sub', 'mul'):
+            out.append(x_arith.observe_arith(fx, np, ['C03'], op, fmt, fmt, cx, cy, route=['operator', 'function'][rot % 2], sizing='same',
+                                             method=['raw', 'repr'][(rot // 2) % 2], xmodes=modes, ymodes=modes))
     # 4. C03: the same inputs shifted by multiples of the modulus 2^(n_word - n_frac) (wrap only)
     if pid == 'C03' and row['o'] == 'wrap':
         mod = F(2) ** (row['w'] - row['f'])
@@ -165,6 +179,25 @@ def _exec_wide(args):
             out.append(x_store.observe(fx, np, (s, w, f), (r, 'saturate'), big, 'pyfloat', rng.choice(sroutes), props, False,
                                        {'huge': True}))
     if pid == 'C03':
+        from .. import x_arith
+        # register clause on wide words: chains of same-format wrap-mode + - *  (products only where no fractional narrowing of
+        # a product beyond 2^53 is involved: n_frac = 0, or words up to 26 bits)
+        for _ in range(count // 2 + 1):
+            s = rng.random() < 0.5
+            w = rng.choice([8, 16, 26, 31, 32, 33, 52, 63, 64, 65, 100, 128])
+            f = rng.choice([0, 0, w // 2]) if w <= 26 else 0
+            t = (s, w, f)
+            lo, hi = ((-(1 << (w - 1)), (1 << (w - 1)) - 1) if s else (0, (1 << w) - 1))
+            acc = rng.randint(lo, hi)
+            for _ in range(4):
+                c2 = rng.choice([lo, hi, 1, -1 if s else 2, rng.randint(lo, hi)])
+                op = rng.choice(['add', 'sub', 'mul'])
+                row_ = x_arith.observe_arith(fx, np, ['C03'], op, t, t, [acc], [c2], scalar=True, sizing='same', route=rng.choice(['operator', 'function']),
+                                             xmodes=(rng.choice(ROUND), 'wrap'), ymodes=('trunc', 'wrap'), extra={'register': True})
+                out.append(row_)
+                if row_.get('k') != 'arith':
+                    break
+                acc = common.unwint(row_['cz'][0])
         # n_word in 64..256 with Python-integer inputs of any size (the int64/object switch)
         for _ in range(count // 2 + 1):
             s = rng.random() < 0.5
